@@ -419,9 +419,82 @@ func runHistory11(g *cv.Gen, t *Tables, res *hx.Result, st *stores, maxSteps, k 
 			res.Count(w.class+"/Create", outc, fmt.Sprintf("Create/%d/%v/%d", len(c.Peers), c.Parent != nil, len(live)), false)
 			continue
 		}
+		// restart: more often while some live channel holds a staged state with a signature
+		signedStaging := false
+		for _, i := range live {
+			stg := w.chans[i].SM.StagingTX()
+			for _, sg := range stg.Sigs {
+				if stg.State != nil && sg != nil {
+					signedStaging = true
+				}
+			}
+		}
+		rp := 40
+		if signedStaging {
+			rp = 5
+		}
+		if g.R.Intn(rp) == 0 {
+			// the process comes up again: a new PersistRestorer on the same database, every machine
+			// rebuilt from what RestoreAll yields and used further through the new persister
+			cls = "after-restart"
+			outc = "OK"
+			olds := map[int]Snap{}
+			for _, i := range live {
+				olds[i] = w.chans[i].Live()
+			}
+			pr = keyvalue.NewPersistRestorer(fdb)
+			rebuilt := map[int]bool{}
+			it, err := pr.RestoreAll()
+			if err != nil {
+				outc = "ERR"
+				w.fail("RestoreAll", cls, "RestoreAll fails at a restart: "+err.Error())
+			} else {
+				for it.Next(bg) {
+					ch := it.Channel()
+					i := w.chanOf(restoredSnap(ch))
+					if i < 0 || !w.chans[i].Created || w.chans[i].Removed {
+						w.fail("RestoreAll", cls, "a restart restores a channel that is not live")
+						continue
+					}
+					if err := w.chans[i].Restart(pr, ch); err != nil {
+						w.fail("RestoreAll", cls, "a restored channel cannot be turned into a machine: "+err.Error())
+						continue
+					}
+					rebuilt[i] = true
+					if now := w.chans[i].Live(); !snapEq(olds[i], now, w.chans[i].N) {
+						w.fail("RestoreAll", cls, fmt.Sprintf("channel %d rebuilt at a restart is %v but the machine before the restart was %v", i, now, olds[i]))
+					}
+				}
+				if err := it.Close(); err != nil {
+					outc = "ERR"
+					w.fail("RestoreAll", cls, "RestoreAll fails at a restart: "+err.Error())
+				}
+			}
+			for _, i := range live {
+				if !rebuilt[i] {
+					w.fail("RestoreAll", cls, fmt.Sprintf("live channel %d is lost at a restart", i))
+				}
+			}
+			w.opLog = append(w.opLog, "Restart")
+			opT = append(opT, "MRestart")
+			om, ol := w.observeOn(st.mem), w.observeOn(st.ldb)
+			if w.summary(om) != w.summary(ol) {
+				w.fail("stores", cls, "memorydb and leveldb disagree after a restart")
+			}
+			w.oracle(om, "memorydb", cls, -1, prevMem)
+			w.oracle(ol, "leveldb", cls, -1, nil)
+			prevMem = om.chans
+			obsT = append(obsT, w.obsTerm("R"+outc, om, &lastKeys, atoms))
+			res.Count(w.class+"/Restart", outc, fmt.Sprintf("Restart/%d/%v/%d", len(live), signedStaging, removedSoFar), false)
+			continue
+		}
 		ci = live[g.R.Intn(len(live))]
 		c := w.chans[ci]
 		o := c.randomOp(88)
+		// after a restart the staged update is replaced through the new persister in most histories
+		if stg := c.SM.StagingTX(); c.postRestart && c.SM.Phase() == channel.Signing && stg.State != nil && g.R.Intn(10) < 7 {
+			o = c.resolve([]string{"Discard", "ForceUpdate", "Discard"}[g.R.Intn(3)])
+		}
 		kind = o.Kind
 		before := c.SM.Phase()
 		opTerm = hx.App("MOp", hx.Nat(ci), c.opTerm(o))
